@@ -943,7 +943,26 @@ func c15SingleTokenPerPart(c *Ctx, rule string) {
 					continue
 				}
 				if inner, ok := e.(*ssa.Phi); ok {
-					if inner.Block() != hb && derivesTokenText(inner) == false {
+					// a join that passes the state itself along on some edge is part of the state's flow: look inside.
+					// A join of values only (the text or "" of a folded token helper) is what is stored, on this edge.
+					carries := false
+					var cs func(x *ssa.Phi, d int) bool
+					cs = func(x *ssa.Phi, d int) bool {
+						if d > 4 {
+							return false
+						}
+						for _, ee := range x.Edges {
+							if ee == ssa.Value(hp) {
+								return true
+							}
+							if ip, ok := ee.(*ssa.Phi); ok && ip != x && cs(ip, d+1) {
+								return true
+							}
+						}
+						return false
+					}
+					carries = cs(inner, 0)
+					if inner.Block() != hb && derivesTokenText(inner) == false && carries {
 						walk(inner)
 						continue
 					}
